@@ -15,7 +15,7 @@ from engine import (lit, Ref, Agg, RString, RVec, Slice, is_sym, str_eq, b_and, 
 from explore import expect, conc, Violation
 
 PROPERTY = 'C06'
-BUDGET = {'quick': 420, 'thorough': 3000}
+BUDGET = {'quick': 900, 'thorough': 3000}
 BOUNDS = {'quick': dict(max_events=3), 'thorough': dict(max_events=5)}
 ASSUMPTIONS = [
     'bounded: the scenarios listed in coverage.scenarios (<= 2 jobs of <= 2 processes in quick, <= 3 jobs / <= 3 processes in thorough) with at most max_events kernel events (one more for single-job, one less for >= 3-process scenarios); paths that would need more events are cut (counted)',
